@@ -239,25 +239,42 @@ def check(ctx):
     ctx.extra["registered_triples"] = len(triples)
 
     # ------------------------------------------------------------------ R4
-    dcfg = CFG(dt)
-    stores = [n for n in dcfg.nodes if n.kind == "stmt" and isinstance(n.ast, ast.Assign) and isinstance(n.ast.targets[0], ast.Subscript) and unparse(n.ast.targets[0].value) == "ctx"]
-    if not stores:
-        raise AnchorMissing(f"{EN}:Env.detype: no store into the result mapping")
-    for s in stores:
-        facts = facts_text(facts_at(dcfg, s))
-        vname = unparse(s.ast.value)
-        need = {
-            "masked value skipped": any("is DELETE_VAR" in f and f.startswith("not ") for f in facts),
-            "missing detyper skipped": any(f.startswith("not ") and "detyper is None" in f for f in facts),
-            "None result skipped": any(f.startswith("not ") and f"{vname} is None" in f for f in facts),
-        }
-        for what, ok in need.items():
-            ctx.ob("R4", f"{EN}:Env.detype", f"`{short(s.ast)}`: {what}", ok, key=f"detype|{what}", where=loc(s.ast), detail="facts: " + "; ".join(facts))
-        # the stored value is the detyper's result for that very value
-        ddefs = df.all_defs(dt)
-        ds = ddefs.get(vname, [])
-        ok = len(ds) == 1 and isinstance(ds[0].value, ast.Call) and unparse(ds[0].value.func) == "detyper"
-        ctx.ob("R4", f"{EN}:Env.detype", "the exported string is the registered detyper applied to the value", ok, key="detype|value-source", where=loc(s.ast))
+    # decided on the helper-transparent view by path enumeration with forward substitution, so that neither
+    # local names, nor continue-vs-nested-if, nor a per-variable helper returning a pair matter
+    from ..engine import dtable as _dt
+
+    dtf = flat(ctx, dt, depth=2, skip=("get_detyper",))
+    res_names = returned_names(dtf)
+    store_loops = [l for l in walk_local(dtf) if isinstance(l, ast.For) and any(isinstance(n, ast.Assign) and isinstance(n.targets[0], ast.Subscript) and isinstance(n.targets[0].value, ast.Name) and n.targets[0].value.id in res_names for n in ast.walk(l))]
+    if len(store_loops) != 1:
+        raise AnchorMissing(f"{EN}:Env.detype: no (single) loop storing into the result mapping ({len(store_loops)})")
+    n_store_paths = 0
+    for pth in _dt.simplified(_dt.paths(store_loops[0].body, stores=True, loops="skip")):
+        sts = [e for e in pth.effects if isinstance(e, ast.Assign) and isinstance(e.targets[0], ast.Subscript) and isinstance(e.targets[0].value, ast.Name) and e.targets[0].value.id in res_names]
+        if not sts:
+            continue
+        n_store_paths += 1
+        lits = set()
+        for e, pol in pth.conds:
+            alts = _dt.branches(e, pol)
+            for e2, p2 in alts[0] if len(alts) == 1 else [_dt.normalise(e, pol)]:
+                lits.add((unparse(e2), p2))
+        for st_ in sts:
+            V = st_.value
+            is_detyped = isinstance(V, ast.Call) and isinstance(V.func, ast.Call) and last_attr(V.func) == "get_detyper" and len(V.args) == 1
+            ctx.ob("R4", f"{EN}:Env.detype", f"`{short(st_, 70)}`: the exported string is the registered detyper applied to the value", is_detyped, key="detype|value-source", where=loc(st_))
+            if not is_detyped:
+                continue
+            F, val = unparse(V.func), unparse(V.args[0])
+            need = {
+                "masked value skipped": (f"{val} is DELETE_VAR", False) in lits,
+                "missing detyper skipped": (f"{F} is None", False) in lits,
+                "None result skipped": (f"{unparse(V)} is None", False) in lits,
+            }
+            for what, ok in need.items():
+                ctx.ob("R4", f"{EN}:Env.detype", f"`{short(st_, 70)}`: {what}", ok, key=f"detype|{what}", where=loc(st_), detail="path: " + "; ".join(("" if p_ else "not ") + t for t, p_ in sorted(lits)))
+    if n_store_paths < 1:
+        raise AnalysisError(f"{EN}:Env.detype: no path stores into the result mapping")
 
     # ------------------------------------------------------------------ R5
     sp = ctx.repo.module(SP)
